@@ -228,10 +228,22 @@ func VerifC11_Release_AmongStillWaiting() {
 	q := NewQueueBlockingLimiterFromConfig(d, QueueLimiterConfig{Ordering: ord, BacklogEvictDoneCtx: verif.Choice("evictDoneCtx", 2) == 1})
 	var chans [3]<-chan core.Listener
 	var listening [3]bool
+	var evicts [3]EvictFunc
 	for i := 0; i < 3; i++ {
-		_, chans[i] = q.backlog.push(context.WithValue(context.Background(), "waiter", i))
+		evicts[i], chans[i] = q.backlog.push(context.WithValue(context.Background(), "waiter", i))
 		listening[i] = verif.Bool("listening")
 		verif.Offer(chans[i], listening[i], nil)
+	}
+	// one of the callers that gave up may remove itself from the backlog WHILE the releaser is inside
+	// the delegate's Acquire on behalf of the caller it peeked (the backlog's head changes under it)
+	if k := verif.Choice("leavesDuringReacquire", 4); k < 3 && !listening[k] {
+		left := false
+		d.during = func() {
+			if !left {
+				left = true
+				evicts[k]()
+			}
+		}
 	}
 	(&QueueBlockingListener{delegateListener: &recListener{}, limiter: q}).OnSuccess()
 	var served [3]bool
@@ -296,6 +308,17 @@ func verifReleaseKeepsWaiters(n, releases int) (o verifRelObs) {
 		evicts[i], chans[i] = q.backlog.push(ctxs[i])
 		o.listening[i] = verif.Bool("listening")
 		verif.Offer(chans[i], o.listening[i], nil)
+	}
+	// one of the callers that gave up may remove itself from the backlog WHILE a releaser is inside
+	// the delegate's Acquire on behalf of the caller it peeked (the head changes under the releaser)
+	if k := verif.Choice("leavesDuringReacquire", n+1); k < n && !o.listening[k] {
+		left := false
+		o.d.during = func() {
+			if !left {
+				left = true
+				evicts[k]()
+			}
+		}
 	}
 	for k := 0; k < releases; k++ {
 		(&QueueBlockingListener{delegateListener: &recListener{}, limiter: q}).OnSuccess()
